@@ -450,10 +450,10 @@ class _Generator(Generator):
         if value_mapping_required:
             encode_lines = ['switch (src_p->{}) {{'.format(location)]
 
-            for data, _ in self.get_enumerated_values(type_):
+            for data, index in sorted(type_.root_data_to_index.items()):
                 encode_lines += [
-                    'case {}_{}_e:'.format(self.location, data),
-                    '    {} = {};'.format(unique_value, type_.root_data_to_index[data]),
+                    'case {}_{}_e:'.format(self.location, canonical(data)),
+                    '    {} = {};'.format(unique_value, index),
                     '    break;']
 
             encode_lines += [
@@ -490,11 +490,11 @@ class _Generator(Generator):
         if value_mapping_required:
             decode_lines.append('switch ({}) {{'.format(unique_value))
 
-            for data, _ in self.get_enumerated_values(type_):
-                decode_lines.append('case {}:'.format(type_.root_data_to_index[data]))
+            for data, index in sorted(type_.root_data_to_index.items()):
+                decode_lines.append('case {}:'.format(index))
                 decode_lines.append('    dst_p->{} = {}_{}_e;'.format(location,
                                                                       self.location,
-                                                                      data))
+                                                                      canonical(data)))
                 decode_lines.append('    break;')
             decode_lines += [
                 'default:',
